@@ -1,4 +1,4 @@
 /* white-box feb.c of the working tree: wake-up / precondition-launch enqueues are logged (C04/C07) */
-#include "c04_ipose.h"
 #define C04_TU 1
+#include "c04_ipose.h"
 #include "feb.c"
